@@ -51,10 +51,51 @@ struct xmlpr_ctx {
     const struct ly_ctx *ctx; /**< libyang context */
     struct ly_set prefix;     /**< printed namespace prefixes */
     struct ly_set ns;         /**< printed namespaces */
+    const struct lyd_node_opaq *opaq; /**< opaque node whose start tag is being printed, if any */
 };
 
 #define LYXML_PREFIX_REQUIRED 0x01  /**< The prefix is not just a suggestion but a requirement. */
 #define LYXML_PREFIX_DEFAULT  0x02  /**< The namespace is required to be a default (without prefix) */
+
+/**
+ * @brief Check whether a prefix is going to be bound to another namespace by the start tag being printed because
+ * a value of the opaque node or of one of its attributes requires it.
+ *
+ * @param[in] pctx XML printer context.
+ * @param[in] prefix Prefix to check.
+ * @param[in] ns Namespace the prefix is (to be) bound to.
+ * @return Whether the prefix cannot be used for @p ns in the start tag.
+ */
+static ly_bool
+xml_prefix_is_reserved(const struct xmlpr_ctx *pctx, const char *prefix, const char *ns)
+{
+    const struct lyd_attr *attr = NULL;
+    const struct ly_set *set;
+    const struct lyxml_ns *val_ns;
+    uint32_t i;
+
+    if (!pctx->opaq) {
+        return 0;
+    }
+
+    set = (pctx->opaq->format == LY_VALUE_XML) ? pctx->opaq->val_prefix_data : NULL;
+    attr = pctx->opaq->attr;
+    while (1) {
+        for (i = 0; set && (i < set->count); ++i) {
+            val_ns = set->objs[i];
+            if (val_ns->prefix && !strcmp(val_ns->prefix, prefix) && strcmp(val_ns->uri, ns)) {
+                return 1;
+            }
+        }
+        if (!attr) {
+            break;
+        }
+        set = (attr->format == LY_VALUE_XML) ? attr->val_prefix_data : NULL;
+        attr = attr->next;
+    }
+
+    return 0;
+}
 
 /**
  * @brief Print a namespace if not already printed.
@@ -71,6 +112,7 @@ xml_print_ns(struct xmlpr_ctx *pctx, const char *ns, const char *new_prefix, uin
     uint32_t i, j, k = 0;
     char *uniq_prefix = NULL;
     const char *prefix;
+    ly_bool retry;
 
     for (i = pctx->ns.count; i > 0; --i) {
         if (!new_prefix) {
@@ -98,7 +140,8 @@ xml_print_ns(struct xmlpr_ctx *pctx, const char *ns, const char *new_prefix, uin
                             break;
                         }
                     }
-                    if (j == pctx->ns.count) {
+                    if ((j == pctx->ns.count) && ((prefix_opts & LYXML_PREFIX_REQUIRED) ||
+                            !xml_prefix_is_reserved(pctx, pctx->prefix.objs[i - 1], ns))) {
                         return pctx->prefix.objs[i - 1];
                     }
                 }
@@ -116,7 +159,8 @@ xml_print_ns(struct xmlpr_ctx *pctx, const char *ns, const char *new_prefix, uin
                     break;
                 }
             }
-            if (i < pctx->ns.count) {
+            retry = (i < pctx->ns.count) || xml_prefix_is_reserved(pctx, prefix, ns);
+            if (retry) {
                 free(uniq_prefix);
                 if (asprintf(&uniq_prefix, "%s%" PRIu32, new_prefix, ++k) == -1) {
                     LOGMEM(pctx->ctx);
@@ -124,7 +168,7 @@ xml_print_ns(struct xmlpr_ctx *pctx, const char *ns, const char *new_prefix, uin
                 }
                 prefix = uniq_prefix;
             }
-        } while (i < pctx->ns.count);
+        } while (retry);
         new_prefix = prefix;
     }
 
@@ -342,8 +386,13 @@ xml_print_attr(struct xmlpr_ctx *pctx, const struct lyd_node_opaq *node)
 static LY_ERR
 xml_print_opaq_open(struct xmlpr_ctx *pctx, const struct lyd_node_opaq *node)
 {
+    LY_ERR rc;
+
     /* print node name */
     ly_print_(pctx->out, "%*s<%s", INDENT, node->name.name);
+
+    /* the prefixes the values of the node and of its attributes use are going to be bound in this start tag */
+    pctx->opaq = node;
 
     if (node->name.prefix || node->name.module_ns) {
         /* print default namespace */
@@ -351,9 +400,10 @@ xml_print_opaq_open(struct xmlpr_ctx *pctx, const struct lyd_node_opaq *node)
     }
 
     /* print attributes */
-    LY_CHECK_RET(xml_print_attr(pctx, node));
+    rc = xml_print_attr(pctx, node);
 
-    return LY_SUCCESS;
+    pctx->opaq = NULL;
+    return rc;
 }
 
 static LY_ERR xml_print_node(struct xmlpr_ctx *pctx, const struct lyd_node *node);
